@@ -200,6 +200,10 @@ class DA:
         coords = self.__dict__.get("coords")
         if coords is not None and name in coords:
             return self._coord_da(name)
+        if name in self.__dict__.get("dims", ()):
+            # dimension without coordinate: default integer index
+            n = ext(self.extent(name))
+            return DA(Arr((n,), lambda idx: idx[0], "i"), dims=(name,), name=name)
         if name == "spec":
             return self._accessor()
         if name == "dt":
@@ -227,6 +231,9 @@ class DA:
         if isinstance(key, str):
             if key in self.coords:
                 return self._coord_da(key)
+            if key in self.dims:
+                n = ext(self.extent(key))
+                return DA(Arr((n,), lambda idx: idx[0], "i"), dims=(key,), name=key)
             raise KeyError(key)
         if isinstance(key, dict):
             return self.isel(key)
